@@ -154,7 +154,37 @@ def gen_synthetic(tier, rng):
         first = rng.choice(index_sets(rng, nv, 3))
         c += " steps=%s save=%d" % (steps_str(history(rng, nv, first)), 1 if rng.random() < 0.7 else 0)
         cases.append(c)
+    # 3. BSSubIndexTriShape with segment tables that do NOT tile the triangle list from triangle 0, as a
+    #    loaded file may carry them: disjoint ordered ranges inside the list, first start mostly above 0,
+    #    gaps between ranges; as SSE table (sse=), as raw FO4 table (fseg=) or both
+    for _ in range(60 if quick else 900):
+        ver = rng.choice(["fo4", "fo4", "fo76"])
+        nv = rng.choice([4, 5, 6, 8, 12, 20]) if quick else rng.choice([4, 5, 6, 8, 12, 20, 40])
+        tris = rand_tris(rng, nv, rng.randint(2, 2 * nv))
+        nt = len(tris)
+        if nt < 2:
+            continue
+        c = "del ver=%s kind=auto nv=%d attrs=%s tris=%s" % (ver, nv, rng.choice(["", "u", "nu"]), fmt_tris(tris))
+        for key in rng.choice([["sse"], ["fseg"], ["sse", "fseg"]]):
+            c += " %s=%s" % (key, loose_table(rng, nt))
+        first = rng.choice(index_sets(rng, nv, 3))
+        c += " steps=%s save=%d" % (steps_str(history(rng, nv, first)), 1 if rng.random() < 0.5 else 0)
+        cases.append(c)
     return cases
+
+
+def loose_table(rng, nt):
+    """1-3 disjoint, ordered ranges inside [0, nt) as 'index.num;...' (index = 3 * first triangle); the
+    first one starts above 0 three times out of four, later ones may leave a gap"""
+    pos = rng.randint(1, max(1, nt // 2)) if rng.random() < 0.75 else 0
+    out = []
+    for _ in range(rng.randint(1, 3)):
+        if pos >= nt:
+            break
+        n = rng.randint(0 if out else 1, nt - pos)
+        out.append("%d.%d" % (3 * pos, n))
+        pos += n + (rng.randint(0, 2) if rng.random() < 0.5 else 0)
+    return ";".join(out)
 
 
 def gen_files(tier, rng, impl_bin, env):
@@ -190,6 +220,57 @@ def gen_files(tier, rng, impl_bin, env):
 
 
 KNOWN_DYN = "C09-bsdyn-datasize"
+KNOWN_SEG0 = "C09-segment-table-not-from-zero"
+_SEG_MSGS = (("after deletion: SSE segment ", " range leaves the triangle list", "sse"),
+             ("after deletion: segment ", " sub-segment range leaves the triangle list", "fo4sub"),
+             ("after deletion: segment ", " range leaves the triangle list", "fo4"))
+
+
+def seg_not_from_zero(prev, idx, cur, errs):
+    """Input class and symptom of C09-segment-table-not-from-zero, decided on the INPUT of the step:
+    a BSSubIndexTriShape whose SSE / FO4 table has its FIRST range starting above triangle 0 and at
+    least one deleted triangle in front of that start; the only complaints are ranges of THAT table
+    leaving the triangle list, each by at least 1 and at most the number of deleted triangles in
+    front (the re-fit chains every start to the first one, which it never moves).
+    Returns True when every error of the step is explained that way."""
+    if not errs or "b" not in prev or "b" not in cur or prev["b"]["kind"] != "sits":
+        return False
+    b0, b1 = prev["b"], cur["b"]
+    nv0 = gs.nverts(prev)
+    dead = set(i for i in idx if i < nv0)
+    gone = [k for k, t in enumerate(b0["TR"]) if any(v in dead for v in t)]
+    tables0 = {"sse": [(ix, n) for ix, n in b0["SSE"]], "fo4": [(g["start"], g["num"]) for g in b0["segs"]]}
+    front = {}
+    for name, tab in tables0.items():
+        first = tab[0][0] // 3 if tab else 0
+        front[name] = len([k for k in gone if k < first]) if first > 0 else 0
+    nt1 = b1["nt"]
+    for x in errs:
+        for pre, post, kind in _SEG_MSGS:
+            if x.startswith(pre) and x.endswith(post) and x[len(pre):len(x) - len(post)].isdigit():
+                i = int(x[len(pre):len(x) - len(post)])
+                break
+        else:
+            return False
+        tab = "sse" if kind == "sse" else "fo4"
+        f = front[tab]
+        if f <= 0:
+            return False
+        if kind == "sse":
+            if i >= len(b1["SSE"]):
+                return False
+            over = [b1["SSE"][i][0] // 3 + b1["SSE"][i][1] - nt1]
+        elif kind == "fo4":
+            if i >= len(b1["segs"]):
+                return False
+            over = [b1["segs"][i]["start"] // 3 + b1["segs"][i]["num"] - nt1]
+        else:
+            if i >= len(b1["segs"]):
+                return False
+            over = [ss // 3 + sn - nt1 for ss, sn in b1["segs"][i]["subs"] if ss // 3 + sn > nt1]
+        if not over or any(o < 1 or o > f for o in over):
+            return False
+    return True
 
 
 def finding_status(fid):
@@ -247,6 +328,14 @@ def check_case(rep, case, iline, mline, stats):
                             keep.append(x + " (the defect repaired as %s is back)" % KNOWN_DYN)
                     else:
                         keep.append(x)
+                if keep and mismatch is None and seg_not_from_zero(prev, idx, cur, keep):
+                    # the implementation does what the model says; the table did not start at triangle 0
+                    if finding_status(KNOWN_SEG0) == "known":
+                        rep.known_finding(KNOWN_SEG0, case[:200])
+                        stats["known_seg0"] = stats.get("known_seg0", 0) + 1
+                        keep = []
+                    else:
+                        keep = [x + " (input class of %s, which is not recorded as known)" % KNOWN_SEG0 for x in keep]
                 if keep:
                     fails.append({"case": case, "step": k + 1, "idx": idx, "errors": keep[:6]})
                 stats["steps_checked"] = stats.get("steps_checked", 0) + 1
@@ -357,12 +446,13 @@ def run(tier, seed, replay=None):
     cov.update({
         "evaluations": len(cases),
         "distinct_nontrivial": len(nontriv),
-        "rule": "synthetic: every non-empty index subset of a 4-vertex shape of every kind/version (NiTriShape OB/FO3/SK with and without skin+partitions+LOCKEDNORM, BSTriShape SSE, BSSubIndexTriShape FO4/FO76, BSDynamicTriShape, BSMeshLODTriShape, NiTriStrips) followed by a second deletion, plus seeded random shapes (1-%d vertices, random triangles/strips, attribute subsets, 1-3 bones, default / SetShapePartitions / UpdateSkinPartitions partitions, LOCKEDNORM lists, FO4 segmentations, SSE segment tables) with single/prefix/suffix/all/random index sets and up to 3 consecutive deletions; samples: every shape (size-limited in quick) with the same index-set classes; non-trivial = some step deleted at least one vertex of a well-formed shape and left at least one; distinct = distinct case lines" % (20 if tier == "quick" else 90),
+        "rule": "synthetic: every non-empty index subset of a 4-vertex shape of every kind/version (NiTriShape OB/FO3/SK with and without skin+partitions+LOCKEDNORM, BSTriShape SSE, BSSubIndexTriShape FO4/FO76, BSDynamicTriShape, BSMeshLODTriShape, NiTriStrips) followed by a second deletion, plus seeded random shapes (1-%d vertices, random triangles/strips, attribute subsets, 1-3 bones, default / SetShapePartitions / UpdateSkinPartitions partitions, LOCKEDNORM lists, FO4 segmentations, SSE segment tables; plus BSSubIndexTriShapes with SSE / raw FO4 segment tables that do not tile the triangle list from 0: first start above 0, gaps) with single/prefix/suffix/all/random index sets and up to 3 consecutive deletions; samples: every shape (size-limited in quick) with the same index-set classes; non-trivial = some step deleted at least one vertex of a well-formed shape and left at least one; distinct = distinct case lines" % (20 if tier == "quick" else 90),
         "samples": cases[:2] + cases[len(cases) // 2:len(cases) // 2 + 2] + cases[-2:],
         "input_distribution": dist,
         "steps_checked_against_spec": stats.get("steps_checked", 0),
         "steps_skipped_input_not_well_formed": stats.get("skipped_not_wf", 0),
         "save_reload_checked": stats.get("reloads", 0),
+        "steps_in_known_class_segment_table_not_from_zero": stats.get("known_seg0", 0),
         "traces_validated_against_impl": len(mlines),
         "correspondence_mismatches": len(mism),
         "spec_failures_on_impl": len(fails),
